@@ -466,7 +466,7 @@ PRIM_FIELDS = {
     'TypeVarTuple': ['name'], 'Constant': ['value'], 'BinOp': ['op'], 'UnaryOp': ['op'], 'BoolOp': ['op'], 'AugAssign': ['op'],
     'MatchSingleton': ['value'],
 }
-IDENT_VALUES = ['zz', 'é', '_', 'as_', None]
+IDENT_VALUES = ['zz', 'é', '_', 'as_', None, 'ﬁle', ('fst', 'ﬁle'), ('fst', 'é'), ('fst', '𝐱y')]
 OPS = {'BinOp': ['Add', 'Mult', 'Pow', 'BitOr', 'LShift', 'MatMult', 'FloorDiv'], 'UnaryOp': ['Not', 'USub', 'Invert'], 'BoolOp': ['And', 'Or'],
        'AugAssign': ['Add', 'Pow', 'RShift', 'FloorDiv']}
 CONST_VALUES = [0, -1, 'é', b'b', None, True, ..., 1.5, 2j, 'a\nb']
@@ -508,6 +508,8 @@ def run_prim_case(case):
                 rec = {'case': list(case), 'src': src, 'cls': cls, 'field': field, 'op': 'set', 'node': k, 'vi': vi, 'parent': par,
                        'value': ast.dump(val) if isinstance(val, ast.AST) else repr(val)}
                 try:
+                    if isinstance(val, tuple) and val[0] == 'fst':      # the identifier given as an FST Name node
+                        val = FST(val[1], 'Name')
                     with FST.options(norm=True):
                         setattr(node, field, val)
                 except Exception as e:
@@ -699,5 +701,98 @@ def move_signature(rec):
 def replay_move(rec):
     for r in run_move_case(tuple(rec['case'])):
         if 'fail' in r and r.get('op') == rec.get('op'):
+            return r['fail']
+    return None
+
+
+# ---- par() / unpar() as edit steps, followed by an edit that consults the node's parentheses ------------------------------
+PAR_SRCS = [
+    'x = a if(b)else c', 'x = (b)if a else c', 'x = a if b else(c)', 'x = d in(y)if a else c', 'x = not(a)', 'x = [(a)for b in(c)if(d)]',
+    'x = p and(a)and q', 'x = p or(a)', 'def f():\n    return(a)', 'x = (a) + (b)', 'x = ((a))', 'x = f((a), (b))', 'x = f((a))', 'x = (a).b', 'x = (a)[b]',
+    'x = (a, b)', 'x = [(a, b), c]', 'for(a)in(b): pass', 'assert(a), (b)', 'x = (yield)', 'x = (lambda: 0)', 'x = (a := 1)', 'with (a): pass', 'with (a) as b: pass',
+    'del(a), b', 'x = {**(a)}', 'x = f(*(a))', 'x = f(k=(a))', 'x = s[(a):(b)]', 'match s:\n    case (1) | (2): pass', 'match s:\n    case (a): pass',
+    'match s:\n    case C((1)): pass', 'x = (a)if(b)else(c)', 'é = "é" if(é)else(ü)', 'raise(a)from(b)', 'x = (-a) ** (-b)', 'x = (a if b else c) if d else e',
+    'x = i for_ in_ y' if False else 'x = (i for i in y)', 'print((a)if b else(c))', 'async def f():\n    await(a)',
+]
+PAR_FOLLOW = ['lambda: 1', 'p if q else r', 'zz', 'a, b', 'yield', 'v := 1', '"é"', 'not q']
+PAR_FOLLOW_PAT = ['1 | 2', 'zz', 'p as q', '"é"']
+
+
+def par_cases():
+    return [('r', i) for i in range(len(PAR_SRCS))]
+
+
+def run_par_case(case):
+    from fst import FST
+    src = PAR_SRCS[case[1]]
+    res = []
+    try:
+        root0 = FST(src, 'exec')
+    except Exception as e:
+        return [{'case': list(case), 'setup_error': repr(e)[:120]}]
+    nodes = [k for k, f in enumerate(root0.walk(True)) if isinstance(f.a, (ast.expr, ast.pattern)) and not isinstance(f.a, ast.expr_context)]
+    for k in nodes:
+        for first in ('unpar', 'par', 'par-force', 'query-unpar'):
+            is_pat = isinstance(list(root0.walk(True))[k].a, ast.pattern)
+            for fi, follow in enumerate((PAR_FOLLOW_PAT if is_pat else PAR_FOLLOW) + [None]):
+                root = FST(src, 'exec')
+                node = list(root.walk(True))[k]
+                if not isinstance(getattr(node.a, 'ctx', ast.Load()), ast.Load):
+                    break
+                rec = {'case': list(case), 'src': src, 'cls': node.a.__class__.__name__, 'field': first, 'op': f'{first}+{follow}', 'node': k, 'fi': fi}
+                try:
+                    with FST.options(norm=True):
+                        if first == 'query-unpar':
+                            node.pars(); node.pars(shared=False); node.pars(shared=None)
+                            node.unpar()
+                        elif first == 'unpar':
+                            node.unpar()
+                        elif first == 'unpar-shared':
+                            node.unpar(shared=None) if 'shared' in node.unpar.__code__.co_varnames else node.unpar()
+                        elif first == 'par':
+                            node.par()
+                        else:
+                            node.par(force=True)
+                except Exception as e:
+                    rec['raised'] = type(e).__name__
+                    res.append(rec)
+                    break
+                d = _judge(root)
+                if d and 'unpar' in first and not d.startswith('positions'):
+                    rec['unparsable_accessor'] = True       # unpar() may be asked to remove NEEDED parentheses (documented, the caller's
+                    res.append(rec)                         # request): a regrouped / unparsable result is not judged, positions are
+                    break
+                if d:
+                    rec['after'] = root.src
+                    rec['fail'] = d
+                    res.append(rec)
+                    break
+                if follow is None:
+                    rec['after'] = root.src
+                    res.append(rec)
+                    continue
+                try:
+                    with FST.options(norm=True):
+                        node.replace(follow)
+                except Exception as e:
+                    rec['raised'] = type(e).__name__
+                    res.append(rec)
+                    continue
+                d = _judge(root)
+                rec['after'] = root.src
+                if d:
+                    rec['fail'] = d
+                res.append(rec)
+    return res
+
+
+def par_signature(rec):
+    cls = 'no-parse' if rec['fail'].startswith('source no longer parses') else ('structure' if rec['fail'].startswith('structure') else 'positions')
+    return f"C01|par|{rec['cls']}|{rec['op']}/{rec['case'][1]}.{rec['node']}|{cls}"
+
+
+def replay_par(rec):
+    for r in run_par_case(tuple(rec['case'])):
+        if 'fail' in r and r.get('node') == rec.get('node') and r.get('op') == rec.get('op'):
             return r['fail']
     return None
